@@ -33,6 +33,7 @@ use super::constant::envvar_key;
 use super::constant::panic_msg;
 use super::error::EncodeError;
 use super::error::SourceError;
+use super::error::SourceErrorReason;
 use super::error::Verified;
 use super::error::VerifyError;
 use super::source::Context;
@@ -299,7 +300,10 @@ impl Fill for ParContext {
         Ok(())
     }
 
-    fn fill_le_bytes(&mut self, bytes: &[u8], _bytes_per_sample: usize) -> Result<(), SourceError> {
+    fn fill_le_bytes(&mut self, bytes: &[u8], bytes_per_sample: usize) -> Result<(), SourceError> {
+        if bytes_per_sample != self.bytes_per_sample {
+            return Err(SourceError::by_reason(SourceErrorReason::InvalidBuffer));
+        }
         self.bytebuf.clear();
         self.bytebuf.extend_from_slice(bytes);
         self.enqueue_buffer();
